@@ -22,9 +22,9 @@ type genCfg struct {
 	notifyW    int
 	clockW     int
 	batchW     int
-	snapW      int // snapshot handle ops (C02/C15)
-	iterW      int // iterator programs (C09)
-	histW      int // previous/revert (C12)
+	snapW      int    // snapshot handle ops (C02/C15)
+	iterW      int    // iterator programs (C09)
+	histW      int    // previous/revert (C12)
 	faults     string // "", "io", "llu"
 	alloc      float64
 	bigVals    float64
@@ -557,4 +557,3 @@ func genIterProg(r *simrt.Rand, pool [][]byte) Op {
 	}
 	return op
 }
-
